@@ -123,7 +123,7 @@ prop("C10", [
 prop("C11", [
     {"name": "c11_promises", "sources": ["c11_promises.cc"], "flavour": "asan",
      "args": {"quick": ["--K=4", "--comb=2", "--prefix=3", "--timeout-ms=120000", "--deadline-s=170"],
-              "thorough": ["--K=5", "--comb=3", "--prefix=3", "--timeout-ms=1200000", "--deadline-s=2400"]}},
+              "thorough": ["--K=5", "--comb=3", "--prefix=3", "--tab-log2=25", "--timeout-ms=1200000", "--deadline-s=2400"]}},
 ],
     rule="one case = all programs of exactly K operations below one 3-operation prefix; operations: create "
          "(pending / resolved / rejected Promise<int>), then(h, {value, void, promise-returning with inner resolved / "
@@ -343,7 +343,7 @@ prop("C09", [
      "args": {"quick": ["--timeout-ms=170000", "--deadline-s=170"],
               "thorough": ["--thorough=1", "--timeout-ms=2400000", "--deadline-s=2400"]}},
     {"name": "c09_mt_tsan", "sources": ["c09_mt.cc"], "c_sources": ["common/netgate.c"], "flavour": "tsan",
-     "args": {"quick": ["--timeout-ms=170000", "--deadline-s=170", "--last=6"],
+     "args": {"quick": ["--timeout-ms=170000", "--deadline-s=170", "--last=9"],
               "thorough": ["--thorough=1", "--timeout-ms=2400000", "--deadline-s=1800"]}},
 ],
     rule="one case = a scenario (w workers sharing one Rest::Router, c keep-alive clients x r tagged requests mixing "
